@@ -54,7 +54,7 @@ CHECKS = {
  "C13": ("exploration",
          "property-based fuzzing with a validity oracle on every diagnostic (byte range in a known file on character boundaries; printed line:column recomputed independently) + single-fault injection with a location oracle",
          "Part A checks every message of every failing run of the mutated-corpus stream (non-ASCII, CR LF, truncated UTF-8) for location validity and for agreement between the printed line:column and the byte range; part B injects one fault of each kind at sampled positions of generated valid programs spread over files and demands that the first error lies on the faulty line of the right file. Exploration.",
-         "Uses hook H1 (report message list). Malformed-directive, built-in-argument and asm-block faults are not covered by the reference model (their location is asserted directly); the missing-operand family and the ranges of diagnostics inside substituted asm-block text are listed known findings.",
+         "Uses hook H1 (report message list). Malformed-directive, built-in-argument and asm-block faults are not covered by the reference model (their location is asserted directly); the missing-operand family, the ranges of diagnostics inside substituted asm-block text, and an earlier correct line being reported before a fault inside an unresolvable asm block are listed known findings.",
          "6/C13"),
  "C14": ("exploration",
          "model-based property testing of inclusion graphs and path spellings against a reference path/inclusion model on an in-memory file server, a sampled replay on the real file system with a sentinel outside the project, and exhaustive enumeration of inclusion-function ranges",
@@ -78,8 +78,8 @@ CHECKS = {
          "6/C17"),
  "C19": ("fault_enumeration",
          "directed magnitude families run through the real binary in its own process under CPU / address-space / stack limits, with an outcome oracle (exit 0, or exit 1 with an error diagnostic; any signal, panic exit, CPU-limit or allocation abort is a violation)",
-         "Complete enumeration of 72 directed families (32 nesting/length/recursion-cycle, 40 numeric) x their magnitude lists (nesting 1..10^5, numeric 2^k-1/2^k/2^k+1 for k up to 65, plus 8*10^8, 6.4*10^9, -1, 0, 4*10^8, 8*10^8-1) against the real binary built with overflow checks (thorough: also the stock release build). Decides crash / hang / abort versus diagnosis for every listed (family, magnitude); nothing is claimed beyond the listed families.",
-         "RLIMIT_CPU 10 s (30 s thorough), RLIMIT_AS 4 GiB, default 8 MiB stack; for the two listed magnitudes inside the supported range (4*10^8, 8*10^8-1) only the time budget is waived (proportional work is not a hang); stack overflows of very long operator chains, #if nesting, #elif chains and chains of distinct sub-rules are listed known findings.",
+         "Complete enumeration of 73 directed families (33 nesting/length/recursion-cycle, 40 numeric) x their magnitude lists (nesting 1..10^5, numeric 2^k-1/2^k/2^k+1 for k up to 65, plus 8*10^8, 6.4*10^9, -1, 0, 4*10^8, 8*10^8-1) against the real binary built with overflow checks (thorough: also the stock release build). Decides crash / hang / abort versus diagnosis for every listed (family, magnitude); nothing is claimed beyond the listed families.",
+         "RLIMIT_CPU 10 s (30 s thorough), RLIMIT_AS 4 GiB, default 8 MiB stack; for the two listed magnitudes inside the supported range (4*10^8, 8*10^8-1) only the time budget is waived (proportional work is not a hang); the CPU limit, the hard kill behind it, a failed allocation and the wall clock count as one kind of death (which one a runaway process meets first depends on the load); stack overflows of very long operator chains, #if nesting, #elif chains, chains of distinct sub-rules and data directives nested through asm blocks, and the runaway growth of a recursive asm-block argument, are listed known findings.",
          "6/C19"),
  "C18": ("exploration",
          "model-based property testing of command lines: the option grammar and format table are parsed from src/usage_help.md at run time; the driver's accept/reject decision, written files and their contents are compared with the model; a sample goes through the real binary",
